@@ -25,6 +25,7 @@ pub mod tlv;
 
 pub mod rpc;
 
+mod enumerate;
 mod evidence;
 mod gen;
 mod node;
